@@ -1,4 +1,4 @@
-(** C15: concrete witnesses of the three finding classes, evaluated on the
+(** C15: concrete witness of the remaining finding class and regression examples, evaluated on the
     model instantiated with the Go decoders (dedup key = octets that get
     hashed, object name = content; i.e. a collision-free sha256). *)
 From Coq Require Import String Ascii List Bool Arith.
@@ -14,22 +14,28 @@ Lemma go_okey_ne a : go_okey a <> [].
 Proof. unfold go_okey; simpl; discriminate. Qed.
 
 Definition grun := run go_key go_okey.
-Definition gread s3on evs m k o : option str :=
+Definition gread s3on evs m k o : option (option str) :=
   match row_of (grun evs) m k with
   | Some row => Some (rd (read_part s3on (grun evs) row o))
   | None => None
   end.
-Definition gclass s3on evs m k o : option finding :=
+Definition gclass evs m k : option finding :=
   match row_of (grun evs) m k with
-  | Some row => classify go_okey s3on (grun evs) row o
+  | Some row => classify go_okey (grun evs) row
   | None => None
+  end.
+Definition gfailed s3on evs m k o : bool :=
+  match row_of (grun evs) m k with
+  | Some row => read_failed s3on (grun evs) row o
+  | None => false
   end.
 Definition gown evs m k : option str := option_map r_own (row_of (grun evs) m k).
 
 (** one read, judged by the executable spec *)
 Definition violates s3on evs m k o : bool :=
   match row_of (grun evs) m k with
-  | Some row => negb (spec_read_ok (r_own row) false (observed (rd (read_part s3on (grun evs) row o))))
+  | Some row => negb (spec_read_ok (r_own row) (read_failed s3on (grun evs) row o)
+                                   (rd (read_part s3on (grun evs) row o)))
   | None => false
   end.
 
@@ -42,33 +48,41 @@ Definition wit_dedup : list event :=
    EStore false [] [] [mkPart (S_ "base64") (S_ "QUJDRA==") true]].
 
 Lemma refuted_dedup_encoding :
-  gclass false wit_dedup 1 0 [] = Some DedupEncoding /\
+  gclass wit_dedup 1 0 = Some DedupEncoding /\
   gown wit_dedup 1 0 = Some (S_ "QUJDRA==") /\
-  gread false wit_dedup 1 0 [] = Some (S_ "ABCD") /\
+  gread false wit_dedup 1 0 [] = Some (Some (S_ "ABCD")) /\
   violates false wit_dedup 1 0 [] = true.
 Proof. vm_compute. repeat split; reflexivity. Qed.
 
-(** delivery stores to the object store, the reading side has S3 disabled *)
+(** delivery stores to the object store, the reading side has S3 disabled:
+    since the repair "blob-read-errors" the read is an error, as the spec demands *)
 Definition wit_config : list event := [EStore true [] [] [mkPart [] (S_ "hello world") true]].
 
-Lemma refuted_config_mismatch :
-  gclass false wit_config 0 0 [] = Some ConfigMismatch /\
-  gread false wit_config 0 0 [] = Some [] /\
-  violates false wit_config 0 0 [] = true /\
-  gread true wit_config 0 0 [] = Some (S_ "hello world").
+Lemma config_mismatch_is_error :
+  gclass wit_config 0 0 = None /\
+  gfailed false wit_config 0 0 [] = true /\
+  gread false wit_config 0 0 [] = Some None /\
+  violates false wit_config 0 0 [] = false /\
+  gread true wit_config 0 0 [] = Some (Some (S_ "hello world")).
 Proof. vm_compute. repeat split; reflexivity. Qed.
 
-(** a failed GET, and a vanished object: both read as the empty string *)
+(** a failed GET, and a vanished object: both are errors now *)
 Definition wit_lost : list event := wit_config ++ [ELose [go_okey (S_ "hello world")]].
 
-Lemma refuted_read_fault_empty :
-  gclass true wit_config 0 0 [OFail] = Some ReadFault /\
-  gread true wit_config 0 0 [OFail] = Some [] /\
-  violates true wit_config 0 0 [OFail] = true /\
-  gclass true wit_lost 0 0 [] = Some ReadFault /\
-  gread true wit_lost 0 0 [] = Some [] /\
-  violates true wit_lost 0 0 [] = true.
+Lemma read_fault_is_error :
+  gfailed true wit_config 0 0 [OFail] = true /\
+  gread true wit_config 0 0 [OFail] = Some None /\
+  violates true wit_config 0 0 [OFail] = false /\
+  gfailed true wit_lost 0 0 [] = true /\
+  gread true wit_lost 0 0 [] = Some None /\
+  violates true wit_lost 0 0 [] = false.
 Proof. vm_compute. repeat split; reflexivity. Qed.
+
+(** regression, about the OLD read shape only (no reference to the model):
+    an empty string in place of "hello world" with no error report violates the spec *)
+Lemma old_behaviour_violates_spec :
+  spec_read_ok (S_ "hello world") true (Some []) = false.
+Proof. vm_compute. reflexivity. Qed.
 
 (** non-vacuity of the positive theorems: S3 store under faults *)
 Definition wit_faults : list event :=
@@ -77,10 +91,10 @@ Definition wit_faults : list event :=
    EStore true [] [] [mkPart [] (S_ "part three") true; mkPart [] (S_ "part three") true]].
 
 Lemma faults_example :
-  gread true wit_faults 0 0 [] = Some (S_ "part one") /\
-  gread false wit_faults 0 0 [] = Some (S_ "part one") /\
-  gread false wit_faults 1 0 [] = Some (S_ "part two") /\
-  gread true wit_faults 2 1 [] = Some (S_ "part three") /\
+  gread true wit_faults 0 0 [] = Some (Some (S_ "part one")) /\
+  gread false wit_faults 0 0 [] = Some (Some (S_ "part one")) /\
+  gread false wit_faults 1 0 [] = Some (Some (S_ "part two")) /\
+  gread true wit_faults 2 1 [] = Some (Some (S_ "part three")) /\
   map b_refs (w_blobs (grun wit_faults)) = [1; 2] /\
-  gclass true wit_faults 2 1 [] = None.
+  gclass wit_faults 2 1 = None.
 Proof. vm_compute. repeat split; reflexivity. Qed.
